@@ -226,6 +226,10 @@ def augmentWithNoise (b : GM α nx k) (Q : Mat α nz nz) : GM α (nx + nz) k :=
          else Q ⟨r.val - nx, by have := r.isLt; omega⟩ ⟨s.val - nx, by have := s.isLt; omega⟩)))
     weight := b.weight }
 
+/-- `augmentWithNoise` with its guard: a non-square matrix is refused (`return false`, mixture untouched). -/
+def augmentWithNoiseChecked {r c : Nat} (b : GM α nx k) (Q : Mat α r c) : Option (GM α (nx + r) k) :=
+  if h : r = c then some (augmentWithNoise b (h ▸ Q : Mat α r r)) else none
+
 end transform
 
 /-! ### Unscented Kalman steps -/
